@@ -29,6 +29,10 @@ func Callee(c ssa.CallInstruction) *ssa.Function {
 	return closureOf(c.Common().Value, 0)
 }
 
+// FuncValue resolves a function-typed value to the function it denotes when
+// the code fixes it (see closureOf); nil otherwise.
+func FuncValue(v ssa.Value) *ssa.Function { return closureOf(v, 0) }
+
 // closureOf resolves a function value to the function literal it denotes when
 // that is fixed by the code: a value kept in a single-assignment local, or the
 // result of a function all of whose returns hand out the same function literal
